@@ -111,6 +111,32 @@ def run_lookup(case, pname):
            {k: v[0] for k, v in want_all.items()})
     except Exception as e:
         problems.append('raised %r' % (e,))
+    # the documented `dictionary=` argument with a mapping that, like a shelve, hands out COPIES of its values
+    # (an in-place append on what __getitem__ returned is lost), and the value given as field INDEX 0 / a field named ''
+    try:
+        if not compound and all(isinstance(r[0], (int, str, type(None), float, bool, bytes, tuple)) for r in rows):
+            for fname, conv in (('lookup', lambda d: {k: list(v) for k, v in d.items()}),
+                                ('dictlookup', lambda d: {k: list(v) for k, v in d.items()}),
+                                ('recordlookup', lambda d: {k: [tuple(r) for r in v] for k, v in d.items()})):
+                plain = conv(getattr(etl, fname)(t, key))
+                got = conv(getattr(etl, fname)(t, key, dictionary=_CopyingDict('copy' if fname.startswith('record') else 'pickle')))
+                eq('%s(dictionary=copying mapping)' % fname, got, plain)
+            for fname in ('lookupone', 'dictlookupone', 'recordlookupone'):
+                plain = dict(getattr(etl, fname)(t, key).items())
+                got = dict(getattr(etl, fname)(t, key, dictionary=_CopyingDict('copy' if fname.startswith('record') else 'pickle')).items())
+                eq('%s(dictionary=copying mapping)' % fname, {k: tuple(v) if not isinstance(v, dict) else v for k, v in got.items()},
+                   {k: tuple(v) if not isinstance(v, dict) else v for k, v in plain.items()})
+        if not compound:
+            # value spec 0 (= field k itself, by index) and 1; a value field named ''
+            eq('lookup(value=0)', etl.lookup(t, key, 0), {k: [r[0] for r in v] for k, v in want_all.items()})
+            eq('lookup(value=1)', etl.lookup(t, key, 1), {k: [r[1] for r in v] for k, v in want_all.items()})
+            eq('lookupone(value=0)', etl.lookupone(t, key, 0), {k: v[0][0] for k, v in want_all.items()})
+            te = [[u'', 'k']] + [[r[1], r[0]] for r in rows]
+            eq("lookup(value='')", etl.lookup(te, 'k', u''), {k: [r[1] for r in v] for k, v in want_all.items()})
+            eq("lookupone(value='')", etl.lookupone(te, 'k', u''), {k: v[0][1] for k, v in want_all.items()})
+            eq("lookup(key='', value='k')", etl.lookup([[u'', 'v']] + rows, u'', 'v'), {k: [r[1] for r in v] for k, v in want_all.items()})
+    except Exception as e:
+        problems.append('lookup with dictionary= / falsy field spec raised %r' % (e,))
     # a value column that holds None in the FIRST row of every key: the first row still wins
     try:
         tn = [hdr + ['w']] + [r + [None if all(tuple(r[:len(r) - 1]) != tuple(q[:len(q) - 1]) for q in rows[:i]) else i]
@@ -149,6 +175,45 @@ def check_lookups(chk, lcases, profiles):
     chk.sample({'kind': 'lookup-case', 'case': lcases[len(lcases) // 2]})
 
 
+class _CopyingDict(object):
+    """Mapping with shelve-like semantics (writeback=False): values are pickled on assignment, every read unpickles a
+    fresh copy.  Keys are kept as they are."""
+
+    def __init__(self, how='pickle'):
+        import pickle
+        import copy
+        self._p = pickle
+        self._d = {}
+        if how == 'copy':           # Record objects cannot be pickled: hand out shallow copies instead
+            self._enc, self._dec = (lambda v: v), (lambda v: list(v) if isinstance(v, list) else v)
+        else:
+            self._enc, self._dec = pickle.dumps, pickle.loads
+
+    def __contains__(self, k):
+        return k in self._d
+
+    def __getitem__(self, k):
+        return self._dec(self._d[k])
+
+    def __setitem__(self, k, v):
+        self._d[k] = self._enc(v)
+
+    def __iter__(self):
+        return iter(self._d)
+
+    def __len__(self):
+        return len(self._d)
+
+    def keys(self):
+        return self._d.keys()
+
+    def items(self):
+        return [(k, self[k]) for k in self._d]
+
+    def get(self, k, default=None):
+        return self[k] if k in self._d else default
+
+
 def check_cache_semantics(chk):
     """cache=False: every pass rebuilds the lookup and reflects the CURRENT contents of both sources; cache=True: the
     second pass is served from the cached lookup (the build side as it was), the streamed side is read again."""
@@ -172,6 +237,24 @@ def check_cache_semantics(chk):
                               {'kind': 'cache-semantics', 'name': name})
             if cache and p2 != p1:
                 chk.add_drift('%s(cache=True): second pass after editing the build side %r, first pass %r' % (name, p2, p1))
+    # the hash joins WITHOUT a cache argument re-read both sides on every pass
+    for name, merge in (('hashlookupjoin', 'lookupjoin'), ('hashantijoin', 'antijoin')):
+        left = [['k', 'a'], [1, 'l1'], [2, 'l2'], [3, 'l3']]
+        right = [['k', 'b'], [1, 'r1'], [2, 'r2']]
+        v = getattr(etl, name)(left, right, key='k')
+        p1 = [tuple(r) for r in v]
+        right[1] = [1, 'EDITED']
+        right.append([3, 'NEW'])
+        left.append([4, 'l4'])
+        p2 = [tuple(r) for r in v]
+        fresh = [tuple(r) for r in getattr(etl, name)(left, right, key='k')]
+        ref = [tuple(r) for r in getattr(etl, merge)(left, right, key='k')]
+        chk.count(('cache-semantics', name))
+        chk.replayed += 1
+        if p2 != fresh or sorted(map(repr, p2)) != sorted(map(repr, ref)):
+            chk.violation({'op': name, 'kind': 'cache-semantics'},
+                          '%s: after editing both sources the second pass of the same view delivers %r, a fresh view %r, %s %r'
+                          % (name, p2, fresh, merge, ref), {'kind': 'cache-semantics', 'name': name})
 
 
 def run(tier, seed):
@@ -182,7 +265,7 @@ def run(tier, seed):
     tlc.check_coverage(r, ACTIONS, 'HashJoin')
     chk.add_tlc(r, 'HashJoin', cfg, ACTIONS)
     cases, _x, lcases = common.gen('JoinGen', 'JoinGen', outs=('OUT', 'OUT2', 'OUT3'))
-    profiles = ['ints', 'mixed', 'text', 'compound', 'equalreps'] if full else ['ints', 'mixed', 'equalreps', 'compound']
+    profiles = ['ints', 'mixed', 'text', 'compound', 'equalreps', 'collide'] if full else ['ints', 'mixed', 'equalreps', 'compound', 'collide']
     if not full:
         rng = random.Random(seed)
         cases = [c for c in cases if not c06._ragged(c) or rng.random() < 0.34]
